@@ -14,6 +14,34 @@ Proof.
   rewrite (H a (or_introl eq_refl)). f_equal. apply IH. intros x Hx. apply H. right. exact Hx.
 Qed.
 
+(* StoreCookie: nothing is dropped while there is room, and the pool never passes eight *)
+Lemma store_all cs : forall p,
+  Forall (fun x => cookie_len_ok x = true) cs -> (length p + length cs <= 8)%nat ->
+  fold_left store_cookie cs p = p ++ cs.
+Proof.
+  induction cs as [|c r IH]; intros p Hall Hlen; cbn [fold_left]; [rewrite app_nil_r; reflexivity|].
+  apply Forall_cons_iff in Hall as [Hc Hr]. cbn [length] in Hlen.
+  unfold store_cookie at 2. rewrite Hc. cbn [negb].
+  destruct (MaxStoredCookies <=? zlen p) eqn:E; [apply Z.leb_le in E; unfold MaxStoredCookies, zlen in E; lia|].
+  rewrite IH; [rewrite <- app_assoc; reflexivity|exact Hr|rewrite app_length; cbn [length]; lia].
+Qed.
+
+Lemma store_cap cs : forall p, (length p <= 8)%nat -> (length (fold_left store_cookie cs p) <= 8)%nat.
+Proof.
+  induction cs as [|c r IH]; intros p Hp; cbn [fold_left]; [exact Hp|]. apply IH.
+  unfold store_cookie. destruct (negb (cookie_len_ok c)); [exact Hp|].
+  destruct (MaxStoredCookies <=? zlen p) eqn:E; [exact Hp|].
+  apply Z.leb_gt in E. unfold MaxStoredCookies, zlen in E. rewrite app_length. cbn [length]. lia.
+Qed.
+
+Lemma store_grows cs : forall p, (length p <= length (fold_left store_cookie cs p))%nat.
+Proof.
+  induction cs as [|c r IH]; intros p; cbn [fold_left]; [lia|].
+  eapply Nat.le_trans; [|apply IH]. unfold store_cookie.
+  destruct (negb (cookie_len_ok c)); [lia|]. destruct (MaxStoredCookies <=? zlen p); [lia|].
+  rewrite app_length. lia.
+Qed.
+
 Section Exchange.
 Variable seal : bytes -> bytes -> bytes -> bytes -> bytes.
 Variable aopen : bytes -> bytes -> bytes -> bytes -> option bytes.
@@ -106,10 +134,11 @@ Lemma client_process_wire rhdr uid rnonce ks2c (sent : list bytes) (c1 : client)
   zlen rhdr = 48 -> zlen uid = 32 -> zlen rnonce = 16 -> zlen ks2c = 32 ->
   Forall (fun x => zlen x = L) sent -> L <= MaxCookieLen ->
   zlen (reply_wire seal rhdr uid rnonce ks2c sent) <= MaxPacketLen ->
+  (length (pool c1) + length sent <= 8)%nat ->
   client_process aopen (reply_wire seal rhdr uid rnonce ks2c sent) ks2c uid c1
     = Ok {| pool := pool c1 ++ sent; c2s := c2s c1; s2c := s2c c1 |}.
 Proof.
-  intros Hh Hu Hn Hk Hall Hmax Hfit.
+  intros Hh Hu Hn Hk Hall Hmax Hfit Hroom.
   pose proof (decode_reply seal seal_len rhdr uid rnonce ks2c sent Hh ltac:(lia) ltac:(rewrite Hu; reflexivity) Hn Hfit) as Ed.
   cbv zeta in Ed. unfold client_process. rewrite Ed. cbn [obind d_uid]. rewrite bytes_eq_refl. cbn [negb].
   unfold authenticate. cbn [d_auth]. unfold key_ok. rewrite Hk, Hn. cbn [negb Z.eqb orb Pos.eqb].
@@ -124,7 +153,8 @@ Proof.
   2:{ cbn [app]. clear - Hall L24. induction Hall as [|x l Hx Hl IH]; cbn [map concat length]; [lia|].
       rewrite app_length. assert (4 <= length (efield extCookie x))%nat.
       { pose proof (efield_len extCookie x). unfold zlen in *. lia. } lia. }
-  cbn [obind d_cookies app]. unfold store. rewrite filter_all; [reflexivity|]. intros x Hx. rewrite Forall_forall in Hall.
+  cbn [obind d_cookies app]. unfold store. rewrite store_all; [reflexivity| |exact Hroom].
+  apply Forall_forall. intros x Hx. rewrite Forall_forall in Hall.
   unfold cookie_len_ok. rewrite (Hall x Hx). apply Z.leb_le. exact Hmax.
 Qed.
 
@@ -185,7 +215,8 @@ Definition CInv (s : csys pstate) : Prop :=
   let sv := cs_server s in
   PInv (cs_now s) (sv_prov sv) /\
   Forall (made_for (sv_prov sv) (sv_next sv) (c2s cl) (s2c cl)) (pool cl) /\
-  (pool cl <> [] -> zlen (c2s cl) = 32 /\ zlen (s2c cl) = 32).
+  (pool cl <> [] -> zlen (c2s cl) = 32 /\ zlen (s2c cl) = 32) /\
+  (length (pool cl) <= 8)%nat.
 
 (* the abstraction: cookies by their identity *)
 Definition alpha (s : csys pstate) : sys nat :=
@@ -277,7 +308,7 @@ Lemma cexchange_spec sent0 now sv1 rekeyed (d c1 : client) o c rest T s' ob :
   pool d = c :: rest -> c1 = {| pool := rest; c2s := c2s d; s2c := s2c d |} ->
   PInv T (sv_prov sv1) -> T <= now ->
   Forall (made_for (sv_prov sv1) (sv_next sv1) (c2s d) (s2c d)) (pool d) ->
-  zlen (c2s d) = 32 -> zlen (s2c d) = 32 -> wf_op o ->
+  zlen (c2s d) = 32 -> zlen (s2c d) = 32 -> wf_op o -> (length (pool d) <= 8)%nat ->
   Cexchange sent0 now sv1 rekeyed d c1 o = Some (s', ob) ->
   CInv s' /\ cs_now s' = now /\
   exists ok waste,
@@ -288,7 +319,8 @@ Lemma cexchange_spec sent0 now sv1 rekeyed (d c1 : client) o c rest T s' ob :
     (ob_nosend ob = true -> ob_sent ob = None) /\ (ob_nosend ob = false -> ob_sent ob <> None) /\
     (ob_intact ob = true -> ob_nosend ob = false).
 Proof.
-  intros Hp Hc1 HP HT Hall Hk1 Hk2 [Hage [Hu [Hn [Hh [Hrn [Hrh _]]]]]] H.
+  intros Hp Hc1 HP HT Hall Hk1 Hk2 [Hage [Hu [Hn [Hh [Hrn [Hrh _]]]]]] Hle8 H.
+  assert (Hrest8 : (length rest <= 7)%nat) by (rewrite Hp in Hle8; cbn [length] in Hle8; lia).
   pose proof (P_weak _ _ _ HP HT) as HPnow.
   assert (Hmade_c : made_for (sv_prov sv1) (sv_next sv1) (c2s d) (s2c d) c)
     by (rewrite Hp in Hall; inversion Hall; assumption).
@@ -330,7 +362,7 @@ Proof.
        (ob_intact ob = true -> ob_nosend ob = false)).
   { intros sv2 waste req HP2 Hincl Hnx Es Eo. subst s'. split; [|split; [reflexivity|]].
     - unfold CInv. cbn [cs_client cs_server cs_now]. subst c1. cbn [pool c2s s2c].
-      split; [exact HP2|]. split; [|intros _; split; assumption].
+      split; [exact HP2|]. split; [|split; [intros _; split; assumption|lia]].
       eapply Forall_mono; [|exact Hrest]. intros x Hx. eapply made_for_mono; [exact Hincl| |exact Hx]. lia.
     - exists false, waste.
       assert (Eob : ob_nosend ob = false /\ ob_intact ob = false /\ ob_rekeyed ob = rekeyed /\ ob_sent ob = Some req)
@@ -348,12 +380,18 @@ Proof.
     + cbv zeta in Er, Erf, Ez. destruct (P_cur _ _ _ _ _ HP HT Ecur) as [HP' [Hcur [Hincl _]]].
       set (sent := firstn (Z.to_nat (reply_count (1 + Z.of_nat p) 32 L)) (Make cur (sv_next sv1) (c2s d) (s2c d) (S p))) in *.
       assert (Hsent_len : Forall (fun x => zlen x = L) sent) by (apply Forall_firstn', make_len; assumption).
+      assert (Hroom : (length (pool c1) + length sent <= 8)%nat).
+      { subst c1. cbn [pool].
+        assert (Hs : Z.of_nat (length sent) = reply_count (1 + Z.of_nat p) 32 L) by exact Ez.
+        pose proof (reply_count_bounds (1 + Z.of_nat p) 32 L ltac:(lia)) as Hb.
+        pose proof (num_placeholders_le (zlen (map cid (pool d))) 32 L) as [Hn8 _]. unfold numStoredCookies in Hn8.
+        rewrite zlen_map in Hn8, Hpz. rewrite Hp in Hn8, Hpz. unfold zlen in Hn8, Hpz. cbn [length] in Hn8, Hpz. lia. }
       rewrite Er in H.
       rewrite (client_process_wire seal aopen seal_len open_seal L L4 L24 Lfit (o_rhdr o) (o_uid o) (o_rnonce o) (s2c d)
-                 sent c1 Hrh Hu Hrn Hk2 Hsent_len Lmax Erf) in H.
+                 sent c1 Hrh Hu Hrn Hk2 Hsent_len Lmax Erf Hroom) in H.
       injection H as Es Eo. subst s' ob. split; [|split; [reflexivity|]].
       * unfold CInv. cbn [cs_client cs_server cs_now pool c2s s2c]. subst c1 sv2. cbn [pool c2s s2c sv_prov sv_next].
-        split; [exact HP'|]. split; [|intros _; split; assumption].
+        split; [exact HP'|]. split; [|split; [intros _; split; assumption|rewrite app_length; exact Hroom]].
         apply Forall_app. split.
         -- eapply Forall_mono; [|exact Hrest]. intros x Hx. eapply made_for_mono; [exact Hincl| |exact Hx]. lia.
         -- apply Forall_firstn'. apply make_made. exact Hcur.
@@ -377,7 +415,7 @@ Proof.
   - (* NoSend *)
     injection H as Es Eo. subst s' ob. split; [|split; [reflexivity|]].
     + unfold CInv. cbn [cs_client cs_server cs_now]. subst c1. cbn [pool c2s s2c].
-      split; [exact HPnow|]. split; [exact Hrest|intros _; split; assumption].
+      split; [exact HPnow|]. split; [exact Hrest|split; [intros _; split; assumption|lia]].
     + exists false, 0%nat. cbn [ob_nosend ob_intact ob_rekeyed ob_sent]. rewrite Habs.
       unfold alpha. cbn [cs_client cs_server cs_sent]. subst c1. cbn [pool].
       repeat split; try reflexivity; try discriminate; try (intros; discriminate).
@@ -402,7 +440,7 @@ Theorem cstep_refines s o s' ob :
                                              (pool (cs_client s) = [] \/ exists r, pool (cs_client s) = c :: r)) /\
             (ob_intact ob = true -> ob_nosend ob = false /\ ob_sent ob <> None).
 Proof.
-  intros [HP [Hall Hkeys]] Hwf H. pose proof Hwf as [Hage [Hu [Hn [Hh [Hrn [Hrh Hke]]]]]].
+  intros [HP [Hall [Hkeys Hle8]]] Hwf H. pose proof Hwf as [Hage [Hu [Hn [Hh [Hrn [Hrh Hke]]]]]].
   unfold cstep in H.
   set (now := cs_now s + o_age o) in *.
   set (sv0 := {| sv_prov := sv_prov (cs_server s); sv_next := (sv_next (cs_server s) + o_skip o)%nat |}) in *.
@@ -427,7 +465,8 @@ Proof.
       rewrite Ef in H.
       destruct (cexchange_spec (cs_sent s) now {| sv_prov := p'; sv_next := (nx + keCookies)%nat |} true
                   {| pool := cookies; c2s := k1; s2c := k2 |} {| pool := r; c2s := k1; s2c := k2 |} o x r now s' ob
-                  Ecs eq_refl HP' (Z.le_refl _) (make_made p' k nx k1 k2 keCookies Hk) Hk1 Hk2 Hwf H)
+                  Ecs eq_refl HP' (Z.le_refl _) (make_made p' k nx k1 k2 keCookies Hk) Hk1 Hk2 Hwf
+                  ltac:(cbn [pool]; unfold cookies; rewrite make_length; unfold keCookies; lia) H)
         as [HI [Hnow [ok [waste [Ha [Hok [Hrk [Hsent [Hns1 [Hns2 Hin]]]]]]]]]].
       split; [exact HI|]. split; [exact Hnow|].
       exists {| e_ke_ok := true; e_ok := ok; e_skip := o_skip o; e_waste := waste; e_nosend := ob_nosend ob |}.
@@ -455,7 +494,7 @@ Proof.
       rewrite Ef in H. injection H as Es Eo. subst s' ob.
       split; [|split; [reflexivity|]].
       * unfold CInv. cbn [cs_client cs_server cs_now fetch_failed client0 pool sv0 sv_prov].
-        split; [apply (P_weak _ _ _ HP HT)|]. split; [constructor|congruence].
+        split; [apply (P_weak _ _ _ HP HT)|]. split; [constructor|split; [congruence|lia]].
       * exists {| e_ke_ok := false; e_ok := false; e_skip := o_skip o; e_waste := 0; e_nosend := false |}.
         cbn [e_ke_ok e_ok e_skip e_waste e_nosend ob_nosend ob_intact ob_sent ob_rekeyed].
         split.
@@ -474,7 +513,7 @@ Proof.
     assert (Hall0 : Forall (made_for (sv_prov sv0) (sv_next sv0) (c2s (cs_client s)) (s2c (cs_client s))) (pool (cs_client s))).
     { rewrite Ep. eapply Forall_mono; [|exact Hall]. intros y Hy. eapply made_for_mono; [apply incl_refl| |exact Hy]. cbn. lia. }
     destruct (cexchange_spec (cs_sent s) now sv0 false (cs_client s) _ o c rest (cs_now s) s' ob
-                Ep eq_refl HP HT Hall0 Hk1 Hk2 Hwf H)
+                Ep eq_refl HP HT Hall0 Hk1 Hk2 Hwf ltac:(rewrite Ep; exact Hle8) H)
       as [HI [Hnow [ok [waste [Ha [Hok [Hrk [Hsent [Hns1 [Hns2 Hin]]]]]]]]]].
     split; [exact HI|]. split; [exact Hnow|].
     exists {| e_ke_ok := match o_ke o with Some _ => true | None => false end;
@@ -506,6 +545,18 @@ Proof.
   destruct (d_uid dr); try discriminate. destruct (negb _); try discriminate.
   destruct (authenticate aopen0 reply dr k) as [cs| | |]; cbn [obind]; try discriminate.
   intros E. injection E as <-. split; reflexivity.
+Qed.
+
+(* whatever an authenticated reply carries - from any server, any number of cookies in the clear or
+   in the ciphertext -: processing it never shrinks the pool and never takes it beyond eight *)
+Theorem client_process_cap (aopen0 : bytes -> bytes -> bytes -> bytes -> option bytes) reply k u c1 c2 :
+  client_process aopen0 reply k u c1 = Ok c2 -> (length (pool c1) <= 8)%nat ->
+  (length (pool c1) <= length (pool c2) <= 8)%nat.
+Proof.
+  unfold client_process. destruct (decode_packet reply) as [dr| | |]; cbn [obind]; try discriminate.
+  destruct (d_uid dr); try discriminate. destruct (negb _); try discriminate.
+  destruct (authenticate aopen0 reply dr k) as [cs| | |]; cbn [obind]; try discriminate.
+  intros E Hle. injection E as <-. cbn [store pool]. split; [apply store_grows|apply store_cap; exact Hle].
 Qed.
 
 (* ---- the server's part of an exchange ---- *)
@@ -644,7 +695,7 @@ Lemma creach_inv s : creach s -> CInv s /\ reachable (fun k : nat => k) L (alpha
 Proof.
   intros [p0 [t0 [os [obs [HP [Hwf H]]]]]].
   assert (HI0 : CInv (csys0 pstate p0 t0)).
-  { unfold CInv, csys0. cbn. split; [exact HP|]. split; [constructor|congruence]. }
+  { unfold CInv, csys0. cbn. split; [exact HP|]. split; [constructor|split; [congruence|lia]]. }
   destruct (crun_refines os _ _ _ HI0 Hwf H) as [HI [es Hes]]. split; [exact HI|].
   exists es. rewrite Hes. reflexivity.
 Qed.
@@ -674,7 +725,7 @@ Theorem concrete_reply s o s' ob reply cs cur :
   creach s -> wf_op o -> Cstep s o = Some (s', ob) -> ob_reply ob = Some (reply, cs, cur) ->
   exists req, ob_sent ob = Some req /\ reply_good s s' o req reply cs cur.
 Proof.
-  intros Hr Hwf H Hrep. destruct (creach_inv s Hr) as [[HP [Hall Hkeys]] _].
+  intros Hr Hwf H Hrep. destruct (creach_inv s Hr) as [[HP [Hall [Hkeys _]]] _].
   pose proof Hwf as [Hage [_ [_ [_ [_ [_ Hke]]]]]].
   unfold cstep in H.
   set (now := cs_now s + o_age o) in *.
@@ -776,7 +827,7 @@ Theorem concrete_request s o s' ob req :
     req = request_wire seal (o_hdr o) (o_uid o) c (o_nonce o) key (placeholders_at L level) /\
     zlen req <= MaxPacketLen.
 Proof.
-  intros Hr Hwf H Hs. destruct (creach_inv s Hr) as [[HP [Hall Hkeys]] Hreach].
+  intros Hr Hwf H Hs. destruct (creach_inv s Hr) as [[HP [Hall [Hkeys _]]] Hreach].
   pose proof (reachable_inv _ id_inj L _ Hreach) as [_ [_ [_ [_ Hle]]]].
   unfold alpha in Hle. cbn [s_pool] in Hle. rewrite map_length in Hle.
   pose proof Hwf as [Hage [_ [_ [_ [_ [_ Hke]]]]]].
